@@ -15,5 +15,9 @@ Definition byte_to_N := Byte.to_N.
 Definition byte_of_N := Byte.of_N.
 Definition err_name_b (e : err) : list byte := list_byte_of_string (err_go_name e).
 
-Extraction "restmodel.ml" rreplay_history replay_history c20_failures_b c20_inert_failures_b rhas_tie_b
+(** the fine-grained layer, for the model-chosen schedules of the T2 tie *)
+Definition pool_get (st : fstate) (t : thr) : option (positive * pc) := f_pool st !! t.
+Definition mk_finit (l : list (thr * (positive * pc))) : fstate := finit (list_to_map l).
+
+Extraction "restmodel.ml" fstep mk_finit pool_get sess final_pc rreplay_history replay_history c20_failures_b c20_inert_failures_b rhas_tie_b
   byte_to_N byte_of_N err_name_b all_errs proj_all Proj Config.
